@@ -816,3 +816,74 @@ def _fsld_post(st, interp, C, res):
 U_FASTA_D2OSLD = Unit("fasta.Molecule.D2Osld", FASTA + ".Molecule.D2Osld", _fsld_inputs, _fsld_post,
                       env={(FASTA, "H2O_SLD"): _H2O_SLD, (FASTA, "D2O_SLD"): _D2O_SLD},
                       replay={"module": "c16", "task": "replay"})
+
+
+# ------------------------------------------------------------------------------ _D2O_slds: which four SLDs are computed
+
+def _dsl_inputs(with_table):
+    def mk(st, interp):
+        use_state(st)
+        pub = VObj("Table", {"H": VObj("HEl", {"id": "pub.H"}), "D": VObj("Atom", {"id": "pub.D"})})
+        priv = VObj("Table", {"H": VObj("HEl", {"id": "priv.H"}), "D": VObj("Atom", {"id": "priv.D"})})
+        for t, nm in ((pub, "pub"), (priv, "priv")):
+            t.attrs["H"].attrs["iso1"] = VObj("Atom", {"id": nm + ".H[1]"})
+        interp.env_overrides[("periodictable.core", "PUBLIC_TABLE")] = pub
+        kw = {"wavelength": st.fresh("wavelength", z3.RealSort())}
+        if with_table:
+            kw["table"] = priv
+        kw["density"] = st.fresh("density", z3.RealSort())
+        comp = VObj("Compound", {})
+        return [comp], kw, {"comp": comp, "kw": kw, "T": priv if with_table else pub, "with_table": with_table}
+    return mk
+
+
+def c_h_getitem(interp, st, args, kw):
+    return args[0].attrs["iso1"]
+
+
+def c_formula_rec(interp, st, args, kw):
+    return VObj("Mol", {"of": args[0], "kw": dict(kw)})
+
+
+def c_mol_replace(interp, st, args, kw):
+    return VObj("Replaced", {"mol": args[0], "source": args[1], "target": args[2], "portion": kw.get("portion", args[3] if len(args) > 3 else 1)})
+
+
+def c_neutron_sld_rec(interp, st, args, kw):
+    return VObj("SLD", {"of": args[0], "kw": dict(kw)})
+
+
+def _dsl_post(st, interp, C, res):
+    if res.outcome == "raise":
+        st.oblige("never-raises", False, kind="raises", info={"exc": res.exc})
+        return
+    v = res.value
+    ok = isinstance(v, VTuple) and len(v.items) == 4 and all(isinstance(x, VObj) and x.cls == "SLD" for x in v.items)
+    st.oblige("post.returns four SLDs", z3.BoolVal(ok))
+    if not ok:
+        return
+    h2o, d2o, hs, ds = v.items
+    T_ = C["T"]
+    st.oblige("post.solvent SLDs are those of H2O and D2O at natural density 0.9982 (water at 20 C)",
+              z3.BoolVal(h2o.attrs["of"] == "H2O@0.9982n" and d2o.attrs["of"] == "D2O@0.9982n"))
+    for nm, x, tgt in (("H", hs, T_.attrs["H"]), ("D", ds, T_.attrs["D"])):
+        rp = x.attrs["of"]
+        good = isinstance(rp, VObj) and rp.cls == "Replaced" and rp.attrs["source"] is T_.attrs["H"].attrs["iso1"] \
+            and rp.attrs["target"] is tgt and rp.attrs["portion"] == 1
+        st.oblige("post.%s-form SLD is that of the compound with H[1] fully replaced by %s, atoms taken from the table in use" % (nm, nm),
+                  z3.BoolVal(bool(good)))
+        mol = rp.attrs["mol"] if isinstance(rp, VObj) and rp.cls == "Replaced" else None
+        st.oblige("post.%s-form: the compound is built by formula(compound, <the caller's keywords incl. density and table>)" % nm,
+                  z3.BoolVal(isinstance(mol, VObj) and mol.cls == "Mol" and mol.attrs["of"] is C["comp"]
+                             and mol.attrs["kw"].get("density") is C["kw"]["density"]
+                             and (mol.attrs["kw"].get("table") is C["kw"].get("table"))))
+    for x in v.items:
+        st.oblige("post.all four SLDs use the same wavelength/energy/table arguments",
+                  z3.BoolVal(x.attrs["kw"].get("wavelength") is C["kw"]["wavelength"] and x.attrs["kw"].get("energy") is None
+                             and x.attrs["kw"].get("table") is C["kw"].get("table")))
+
+
+U_D2O_SLDS = [Unit("_D2O_slds[%s]" % ("table=T" if t else "default table"), NSF + "._D2O_slds", _dsl_inputs(t), _dsl_post,
+                   contracts={NSF + ".neutron_sld": c_neutron_sld_rec, FORMULAS + ".formula": c_formula_rec,
+                              "Mol.replace": c_mol_replace, "HEl.__getitem__": c_h_getitem},
+                   inline={"periodictable.core.default_table"}, replay={"module": "c16", "task": "replay"}) for t in (False, True)]
